@@ -101,8 +101,8 @@ pub enum R1Op {
     Select(usize, usize, usize),
     /// scalar_mul_le with the bits of this small scalar allocated in this mode
     ScalarMul(usize, u16, Mode),
-    /// scalar_mul_le with a long bit string: the low `nbits` (1..=256) bits of this 32-byte little-endian
-    /// scalar; bit allocation pattern 0 = witnesses, 1 = constants, 2 = first 64 constants then witnesses,
+    /// scalar_mul_le with a long bit string: the low `nbits` (1..=520) bits of this little-endian byte
+    /// string (up to 66 bytes); bit allocation pattern 0 = witnesses, 1 = constants, 2 = first 64 constants then witnesses,
     /// 3 = witnesses with every third bit a constant
     ScalarMulBits(usize, Hex, u16, u8),
     IsEq(usize, usize),
